@@ -6,6 +6,7 @@ import Driver.Sync
 import Driver.Chan
 import Driver.ObjCache
 import Driver.Rpc
+import Driver.File
 /-! `driver <model>`: one op per stdin line, one canonical result line per op on stdout. -/
 
 structure Model where
@@ -21,6 +22,7 @@ def dispatch (model : String) : Option Model :=
   | "path" => some (pureModel Driver.Path.step)
   | "iov" => some ⟨Driver.Iov.St, {}, Driver.Iov.step⟩
   | "objcache" => some ⟨Driver.ObjCache.D, {}, Driver.ObjCache.step⟩
+  | "file" => some ⟨Driver.File.St, {}, Driver.File.step⟩
   | "rpc" => some ⟨Driver.Rpc.D, {}, Driver.Rpc.step⟩
   | "chan" => some ⟨Driver.Chan.D, {}, Driver.Chan.step⟩
   | "sync" => some ⟨Driver.Sync.D, {}, Driver.Sync.step⟩
